@@ -48,7 +48,7 @@ m = dict(
                   kind_free_text="Rust harness: workload generators + reference-model / trace monitors + instrumented containers; "
                                  "run natively (hooks on), under Miri, AddressSanitizer and valgrind memcheck (hooks off) by /verif/check")],
     checks=checks,
-    notes="Verdicts are three-valued: exit 0 held / exit 1 VIOLATION / exit 2 INCONCLUSIVE. Known findings: /verif/known_findings.json.",
+    notes="Verdicts are three-valued: exit 0 held / exit 1 VIOLATION / exit 2 INCONCLUSIVE. Known findings: /verif/known_findings.json (none open; every defect found was repaired by a fix: commit in /repo). Self-tests of the machinery: /verif/seeded (72 breaking changes), /verif/preserving (20 property-preserving changes), /verif/selftest (mutation campaign, lanes); see DESIGN.md section 10.",
     not_applicable=na,
 )
 json.dump(m, open(os.path.join(VERIF, "MANIFEST.json"), "w"), indent=1)
